@@ -597,7 +597,7 @@ pub fn cases(tier: Tier) -> Vec<Case> {
         insts.clone()
     };
     for c in &core {
-        for variant in 0..25 {
+        for variant in 0..26 {
             let mut f = model(vec![c.clone(), ConDecl { name: "int_le", args: vec![v("x"), v("x")] }], Goal::Satisfy, String::new());
             // make sure all base variables exist for the variants
             f.vars = base_vars();
@@ -764,6 +764,15 @@ pub fn cases(tier: Tier) -> Vec<Case> {
                     f.vars.push(VarDecl { name: "u".into(), dom: Dom::Set(vec![0, -2, -1]), alias: None, fixed: None, output: true });
                     f.cons.push(ConDecl { name: "int_lin_le", args: vec![Arg::Arr(vec![Arg::I(1), Arg::I(-1)]), Arg::Arr(vec![v("x"), v("w")]), Arg::I(-3)] });
                     f.cons.push(ConDecl { name: "int_le", args: vec![v("u"), v("z")] });
+                }
+                25 => {
+                    // named set parameters written unsorted whose first element, last element and
+                    // length look like those of an interval
+                    f.pars.push(ParDecl { name: "ss".into(), values: vec![0, 5, 2], kind: ParKind::Set });
+                    f.pars.push(ParDecl { name: "tt".into(), values: vec![1, 5, 3], kind: ParKind::Set });
+                    f.vars.push(VarDecl { name: "w".into(), dom: Dom::Range(0, 6), alias: None, fixed: None, output: true });
+                    f.cons.push(ConDecl { name: "set_in", args: vec![v("x"), Arg::Name("ss".into())] });
+                    f.cons.push(ConDecl { name: "set_in_reif", args: vec![v("w"), Arg::Name("tt".into()), v("p")] });
                 }
                 _ => {
                     // several reified equalities of one variable combined in a clause
